@@ -913,8 +913,8 @@ fn manual_space(max_n: usize) -> Vec<(usize, Vec<Vec<usize>>)> {
 pub fn run(ctx: &Ctx) -> ! {
     let space = manual_space(4);
     let nman = space.len() as u64; // 33 perms + 30 subsets = 63... (n=1: 1+1)
-    let reps = ctx.pick(2u64, 30);
-    let nrandom = ctx.pick(2500u64, 120_000);
+    let reps = ctx.pick(8u64, 60);
+    let nrandom = ctx.pick(15_000u64, 300_000);
     let total = nman * reps + nrandom;
     let build = move |c: &Ctx, idx: u64| -> (Scn, String) {
         let seed = c.scenario_seed("c08", idx);
